@@ -336,47 +336,64 @@ fn c04_check_dvalue_tail_n2_b3() {
     std::mem::forget((xs, ys, zs));
 }
 
-/// C04/C10 - Beaver derandomisation, tail after the (d,e) exchange (n = 2, own index 0, one
-/// triple): Ok(s) implies the peer's d/e MACs verified under the own keys of the d/e shares and
-///   s = c ^ (d ? beta : 0) ^ (e ? a : 0)   with d = d_own ^ d_peer, e = e_own ^ e_peer
-/// (bit, and MAC/key towards the peer).
+/// C04 - Beaver derandomisation, check of the opened (d, e) values (n = 2, own index 0, two
+/// triples): Ok implies that for every triple BOTH of the peer's MACs (on d and on e) verify
+/// under the own keys of the d/e shares; the returned openings are own ^ peer.
 #[kani::proof]
-#[kani::unwind(4)]
+#[kani::unwind(5)]
 #[kani::stub(std::fmt::format, no_format)]
-fn c04_beaver_tail_n2() {
+fn c04_beaver_check_n2() {
     let delta = Delta(kani::any());
+    let dk: [u128; 2] = [kani::any(), kani::any()];
+    let ek: [u128; 2] = [kani::any(), kani::any()];
+    let own_d: [bool; 2] = [kani::any(), kani::any()];
+    let own_e: [bool; 2] = [kani::any(), kani::any()];
+    let pd: [bool; 2] = [kani::any(), kani::any()];
+    let pe: [bool; 2] = [kani::any(), kani::any()];
+    let pdm: [u128; 2] = [kani::any(), kani::any()];
+    let pem: [u128; 2] = [kani::any(), kani::any()];
+    let sh = |b: bool, k: u128| Share(b, Auth(vec![(Mac(0), Key(0)), (Mac(kani::any()), Key(k))]));
+    let de_shares = vec![(sh(own_d[0], dk[0]), sh(own_e[0], ek[0])), (sh(own_d[1], dk[1]), sh(own_e[1], ek[1]))];
+    let r = seg_beaver_check(
+        delta,
+        0,
+        2,
+        de_shares,
+        vec![(own_d[0], own_e[0], Mac(0), Mac(0)), (own_d[1], own_e[1], Mac(0), Mac(0))],
+        vec![vec![], vec![(pd[0], pe[0], Mac(pdm[0]), Mac(pem[0])), (pd[1], pe[1], Mac(pdm[1]), Mac(pem[1]))]],
+    );
+    let ok = r.is_ok();
+    kani::cover!(ok, "beaver_check_ok_reachable");
+    kani::cover!(!ok, "beaver_check_err_reachable");
+    if let Ok(v) = &r {
+        let mut j = 0;
+        while j < 2 {
+            assert!(pdm[j] == dk[j] ^ (if pd[j] { delta.0 } else { 0 }), "C04:beaver:MAC-of-d-verified");
+            assert!(pem[j] == ek[j] ^ (if pe[j] { delta.0 } else { 0 }), "C04:beaver:MAC-of-e-verified");
+            assert!(v.len() == 2 && v[j].0 == (own_d[j] ^ pd[j]) && v[j].1 == (own_e[j] ^ pe[j]), "C10:beaver:opened-d,e==own^peer");
+            j += 1;
+        }
+    }
+    std::mem::forget(r);
+}
+
+/// C10 - Beaver derandomisation, final share (n = 2, own index 0, one triple):
+///   share == c ^ (d ? beta : 0) ^ (e ? a : 0)   (bit, MAC and key towards the peer).
+fn beaver_final_n2(d: bool, e: bool) {
     // raw components: [a, b, c, alpha, beta] x (bit, mac1, key1); entry 0 (own index) is zero
     let bits: [bool; 5] = [kani::any(), kani::any(), kani::any(), kani::any(), kani::any()];
     let m: [u128; 5] = [kani::any(), kani::any(), kani::any(), kani::any(), kani::any()];
     let k: [u128; 5] = [kani::any(), kani::any(), kani::any(), kani::any(), kani::any()];
     let s = |c: usize| Share(bits[c], Auth(vec![(Mac(0), Key(0)), (Mac(m[c]), Key(k[c]))]));
-    let d_own = bits[0] ^ bits[3];
-    let e_own = bits[1] ^ bits[4];
-    let dsh = Share(d_own, Auth(vec![(Mac(0), Key(0)), (Mac(m[0] ^ m[3]), Key(k[0] ^ k[3]))]));
-    let esh = Share(e_own, Auth(vec![(Mac(0), Key(0)), (Mac(m[1] ^ m[4]), Key(k[1] ^ k[4]))]));
-    let (pd, pe, pdm, pem): (bool, bool, u128, u128) = (kani::any(), kani::any(), kani::any(), kani::any());
     let ab = [(s(3), s(4))];
-    let r = seg_beaver_tail(
-        delta,
-        0,
-        2,
-        1,
-        vec![(s(0), s(1), s(2))],
-        &ab,
-        vec![(dsh, esh)],
-        vec![(d_own, e_own, Mac(0), Mac(0))],
-        vec![vec![], vec![(pd, pe, Mac(pdm), Mac(pem))]],
-    );
+    let abc = [(s(0), s(1), s(2))];
+    let de = [(d, e, Mac(0), Mac(0))];
+    let r = seg_beaver_final(1, &abc, &ab, &de);
     let ok = r.is_ok();
-    kani::cover!(ok, "beaver_ok_reachable");
-    kani::cover!(!ok, "beaver_err_reachable");
+    assert!(ok, "C10:beaver:final-step-returns-Ok");
     if let Ok(sv) = &r {
-        assert!(pdm == (k[0] ^ k[3]) ^ (if pd { delta.0 } else { 0 }), "C04:beaver:MAC-of-d-verified");
-        assert!(pem == (k[1] ^ k[4]) ^ (if pe { delta.0 } else { 0 }), "C04:beaver:MAC-of-e-verified");
         assert!(sv.len() == 1, "C10:beaver:one-share-per-triple");
         if sv.len() == 1 {
-            let d = d_own ^ pd;
-            let e = e_own ^ pe;
             let eb = bits[2] ^ (d & bits[4]) ^ (e & bits[0]);
             let em = m[2] ^ (if d { m[4] } else { 0 }) ^ (if e { m[0] } else { 0 });
             let ek = k[2] ^ (if d { k[4] } else { 0 }) ^ (if e { k[0] } else { 0 });
@@ -384,10 +401,26 @@ fn c04_beaver_tail_n2() {
             assert!(sv[0].1 .0.len() == 2 && sv[0].1 .0[1].0 .0 == em && sv[0].1 .0[1].1 .0 == ek, "C10:beaver:mac/key==c^d*beta^e*a");
         }
     }
+    kani::cover!(ok, "beaver_final_reachable");
     std::mem::forget(r);
     std::mem::forget(ab);
+    std::mem::forget(abc);
 }
 
+macro_rules! beaver_final_variant {
+    ($name:ident, $d:expr, $e:expr) => {
+        #[kani::proof]
+        #[kani::unwind(5)]
+        #[kani::stub(std::fmt::format, no_format)]
+        fn $name() {
+            beaver_final_n2($d, $e);
+        }
+    };
+}
+beaver_final_variant!(c10_beaver_final_n2_d0e0, false, false);
+beaver_final_variant!(c10_beaver_final_n2_d0e1, false, true);
+beaver_final_variant!(c10_beaver_final_n2_d1e0, true, false);
+beaver_final_variant!(c10_beaver_final_n2_d1e1, true, true);
 
 /// Peer's decommitment for one check object with an arbitrary inner length 0..=17 and
 /// arbitrary content (recv_vec_from only validates the outer length).
